@@ -30,10 +30,11 @@ type fakeLwk struct {
 }
 
 type lwkPset struct {
-	addr   string
-	amount uint64
-	fee    uint64
-	signed bool
+	addr     string
+	amount   uint64
+	fee      uint64
+	signed   bool
+	errAfter bool
 }
 
 func init() {
@@ -134,7 +135,7 @@ func (f *fakeLwk) request(m jrpc2.Method, resp interface{}) error {
 		n.mu.Lock()
 		f.psetSeq++
 		id := fmt.Sprintf("cHNldP8-sim-%d-%d", n.ID, f.psetSeq)
-		f.psets[id] = &lwkPset{addr: req.Addressees[0].Address, amount: req.Addressees[0].Satoshi, fee: fee}
+		f.psets[id] = &lwkPset{addr: req.Addressees[0].Address, amount: req.Addressees[0].Satoshi, fee: fee, errAfter: flt != nil && flt.Kind == "errafter"}
 		n.mu.Unlock()
 		return fill(resp, map[string]interface{}{"pset": id})
 	case "signer_sign":
@@ -157,9 +158,9 @@ func (f *fakeLwk) request(m jrpc2.Method, resp interface{}) error {
 		if ps == nil || !ps.signed {
 			return lwkErr(-32602, "PSET is not fully signed")
 		}
-		flt := n.op("lwallet.broadcast")
-		if flt != nil && flt.Kind == "err" {
-			return lwkErr(-32603, "lwk: electrum unreachable")
+		var flt *Fault
+		if ps.errAfter {
+			flt = &Fault{Kind: "errafter"}
 		}
 		asset := append([]byte{1}, w.liquidAssetBytes()...)
 		txid, _, err := f.l.fundAndBroadcast(ps.addr, ps.amount, asset, ps.fee, op, flt)
